@@ -47,6 +47,8 @@ def str_method(E, m, args, kwargs):
                                [VC(str(e))]))
         if isinstance(r, list):
             return E.alloc(HList([VC(x) for x in r]))
+        if isinstance(r, tuple):
+            return VT([VC(x) for x in r])
         return VC(r)
     s = E.as_z3_str(me)
     SS = z3.StringSort()
@@ -105,6 +107,13 @@ def str_method(E, m, args, kwargs):
             E.ghost.setdefault('split_of', {})[nm] = (s, sep)
             return E.alloc(HList([], base=sq))
         raise Unsupported('str.split()')
+    if m == 'partition' and len(rest) == 1:
+        sep = E.as_z3_str(rest[0])
+        a, sv, b = z3.String(E.fresh('before')), z3.String(E.fresh('sepfound')), z3.String(E.fresh('after'))
+        E.assume(z3.Concat(a, sv, b) == s)
+        E.assume(z3.Or(z3.And(sv == sep, z3.Not(z3.Contains(a, sep))),
+                       z3.And(sv == S(''), b == S(''), a == s, z3.Not(z3.Contains(s, sep)))))
+        return VT([VS(a), VS(sv), VS(b)])
     if m in ('rsplit', 'splitlines', 'partition', 'rpartition') or (m == 'split' and len(rest) != 1):
         # pieces of the string: an abstract list of strings about which nothing is known
         nm = E.fresh('pieces')
@@ -151,6 +160,10 @@ def str_method(E, m, args, kwargs):
                     out = ops.binop(E, 'Add', out, VC(p))
             return out
         raise Unsupported('str.format on symbolic')
+    if m in ('casefold', 'swapcase', 'title', 'expandtabs', 'zfill', 'center', 'ljust', 'rjust') :
+        f = ufun('str_' + m, SS, SS)
+        E.lib_used.add('str.%s: uninterpreted' % m)
+        return VS(f(s))
     if m == 'isdigit':
         f = ufun('str_isdigit', SS, z3.BoolSort())
         return VB(f(s))
